@@ -490,7 +490,7 @@ func (sm *shardManagerImpl) RegisterShard(clientShardID history.ClusterShardID) 
 	sm.logger.Info("RegisterShard", tag.NewStringTag("shard", ClusterShardIDtoString(clientShardID)))
 	registeredAt := sm.addLocalShard(clientShardID)
 	vfYield("register.window")
-	sm.broadcastShardChange("register", clientShardID)
+	sm.broadcastShardChange("register", clientShardID, registeredAt)
 
 	// Trigger memberlist metadata update to propagate NodeMeta to other nodes
 	// Run asynchronously to avoid blocking callers
@@ -529,7 +529,7 @@ func (sm *shardManagerImpl) UnregisterShard(clientShardID history.ClusterShardID
 		// The entry was removed above while holding the lock and after checking its timestamp. Do not remove by key
 		// again here: a successor may have registered the shard since the lock was released.
 		vfYield("unregister.window")
-		sm.broadcastShardChange("unregister", clientShardID)
+		sm.broadcastShardChange("unregister", clientShardID, time.Now())
 
 		// Trigger memberlist metadata update to propagate NodeMeta to other nodes
 		// Run asynchronously to avoid blocking callers
@@ -885,7 +885,10 @@ func (sm *shardManagerImpl) GetIntraProxyTLSConfig() encryption.TLSConfig {
 	return sm.intraProxyTLSConfig
 }
 
-func (sm *shardManagerImpl) broadcastShardChange(msgType string, shard history.ClusterShardID) {
+// broadcastShardChange announces a claim ("register") or its withdrawal to the peers. at is the time the message speaks
+// for: for a claim the time recorded with the claim itself - receivers compare it with the age of their own claim, so a
+// fresh time.Now() here would make a claim look newer than it is when the announcement goes out late.
+func (sm *shardManagerImpl) broadcastShardChange(msgType string, shard history.ClusterShardID, at time.Time) {
 	if !sm.started || sm.ml == nil || sm.memberlistConfig == nil {
 		return
 	}
@@ -894,7 +897,7 @@ func (sm *shardManagerImpl) broadcastShardChange(msgType string, shard history.C
 		Type:        msgType,
 		NodeName:    sm.GetNodeName(),
 		ClientShard: shard,
-		Timestamp:   time.Now(),
+		Timestamp:   at,
 	}
 
 	data, err := json.Marshal(msg)
